@@ -877,6 +877,7 @@ def _evaluate(inp, interp_class=None):
         tg = [["construction-error", error_kind(ex)]]
     ignore = unmentioned_state(inp, gen_st)
     ref, ti, tg = filter_trace(ref, ignore), filter_trace(ti, ignore), filter_trace(tg, ignore)
+    diag["sig"] = hash(json.dumps([ti, tg, ref], sort_keys=True, default=str))
     diag["interp_eq_ref"] = ti == ref
     diag["gen_eq_ref"] = tg == ref
     diag["interp_eq_gen"] = ti == tg
@@ -921,6 +922,10 @@ def _only_extra_state(ti, tg, ref):
 
 
 # ---- fingerprints of known findings -----------------------------------------------------------------------
+# A finding is recognised by NEUTRALISING it: the input (or, for D21, the interpreter) is changed in a way
+# that keeps the program-order meaning exactly but avoids the one construct the finding is about.  If the
+# failure disappears, the finding accounts for it.  Neutralisers are applied cumulatively, so an input
+# that trips over several known findings is recognised as such, and anything left over stays visible.
 
 class _TolerantInterpreter(NumpyInterpreter):
     """the real interpreter, except that a loop identifier is bound before exec_Assign runs, so the
@@ -933,86 +938,145 @@ class _TolerantInterpreter(NumpyInterpreter):
         return NumpyInterpreter.exec_Assign(self, stmt)
 
 
-def _d21_symptom(inp):
-    """zero-trip loop -> interpreter KeyError(loop identifier) at `del self.context[ident]`, and an
-    interpreter that tolerates the `del` behaves differently"""
-    v = evaluate(inp)
-    if v["status"] != "fail":
-        return False
-    d = v["diag"]
-    exc = d.get("interp_exc")
-    if not (exc and exc[1] == "KeyError" and d.get("zero_trip")):
-        return False
-    if exc[2].strip("'\"") not in d["zero_trip"]:
-        return False
-    vt = evaluate(inp, tolerant=True)
-    return vt["status"] == "ok" or vt["diag"].get("interp_exc") != exc
-
-
-def rename_ret_names(inp):
-    def rn(n):
-        for p in RET_PREFIXES:
-            if isinstance(n, str) and n.startswith(p):
-                return "tmp_" + p[1:-1] + "_" + n[len(p):]
-        return n
+def map_program(inp, fx=None, fname=None, floops=None):
+    """copy of `inp` with fx applied bottom-up to every expression node, fname to every variable name
+    (also assignment targets) and floops(phase, loops) to every loop list"""
+    fx = fx or (lambda e: e)
+    fname = fname or (lambda n: n)
 
     def rx(e):
         if isinstance(e, str):
-            return rn(e)
+            return fx(fname(e))
         if isinstance(e, list):
             if e[0] == "call":
-                return ["call", e[1], [rx(a) for a in e[2]],
-                        {k: rx(a) for k, a in (e[3] if len(e) > 3 and e[3] else {}).items()}]
-            if e[0] == "cmp":
-                return ["cmp", e[1], rx(e[2]), rx(e[3])]
-            return [e[0]] + [rx(a) for a in e[1:]]
-        return e
+                new = ["call", e[1], [rx(a) for a in e[2]],
+                       {k: rx(a) for k, a in (e[3] if len(e) > 3 and e[3] else {}).items()}]
+            elif e[0] == "cmp":
+                new = ["cmp", e[1], rx(e[2]), rx(e[3])]
+            else:
+                new = [e[0]] + [rx(a) for a in e[1:]]
+            return fx(new)
+        return fx(e)
 
-    def rs(s):
+    def rl(ph, lps):
+        lps = [[lp[0], rx(lp[1]), rx(lp[2])] for lp in lps]
+        return floops(ph, lps) if floops else lps
+
+    def rs(ph, s):
         k = s[0]
         if k == "assign":
-            return ["assign", rn(s[1]), rx(s[2])] + ([[[lp[0], rx(lp[1]), rx(lp[2])] for lp in s[3]]]
-                                                     if len(s) > 3 and s[3] else [])
+            lps = s[3] if len(s) > 3 and s[3] else []
+            return ["assign", fname(s[1]), rx(s[2])] + ([rl(ph, lps)] if lps else [])
         if k == "assign_sub":
-            return ["assign_sub", rn(s[1]), rx(s[2]), rx(s[3]),
-                    [[lp[0], rx(lp[1]), rx(lp[2])] for lp in (s[4] if len(s) > 4 and s[4] else [])]]
+            return ["assign_sub", fname(s[1]), rx(s[2]), rx(s[3]), rl(ph, s[4] if len(s) > 4 and s[4] else [])]
         if k == "call":
-            return ["call", [rn(n) for n in s[1]], s[2], [rx(a) for a in s[3]],
-                    {kk: rx(a) for kk, a in (s[4] if len(s) > 4 and s[4] else {}).items()}]
+            c = rx(["call", s[2], s[3], s[4] if len(s) > 4 and s[4] else {}])
+            if not (isinstance(c, list) and c[0] == "call"):
+                raise ValueError("a call statement must stay a call")
+            return ["call", [fname(n) for n in s[1]], c[1], c[2], c[3]]
         if k == "if":
-            return ["if", rx(s[1]), [rs(x) for x in s[2]],
-                    [rs(x) for x in s[3]] if len(s) > 3 and s[3] else None]
+            return ["if", rx(s[1]), [rs(ph, x) for x in s[2]],
+                    [rs(ph, x) for x in s[3]] if len(s) > 3 and s[3] else None]
         if k == "yield":
             return ["yield", rx(s[1]), s[2], rx(s[3]), s[4]]
         return s
 
     out = copy.deepcopy(inp)
     for ph in out["phases"]:
-        ph["body"] = [rs(s) for s in ph["body"]]
+        ph["body"] = [rs(ph, s) for s in ph["body"]]
     return out
 
 
-def _fp_d21(inp, tol):
-    """D21 alone: generated code and program order agree, and the failure disappears with an
-    interpreter that tolerates the `del`"""
-    return (not tol) and _d21_symptom(inp) and evaluate(inp)["diag"].get("gen_eq_ref") \
-        and evaluate(inp, tolerant=True)["status"] == "ok"
+def _keep(e):
+    """same value, but printed inside parentheses by every printer: (e if True else 0)"""
+    return ["if", True, e, 0]
 
 
-def _fp_d22(inp, tol):
-    """D22: a name <ret_state>/<ret_time>/<ret_time_id>... is kept between steps by the generated
-    class only.  Narrow: the only difference is such names in the generated object's state, and the
-    failure vanishes when exactly these names are renamed to ordinary temporaries (which does not
-    change the program-order meaning)."""
-    if not any(n.startswith(RET_PREFIXES) for n in names_in(inp)):
-        return False
-    v = evaluate(inp, tol)
-    if v["status"] != "fail":
-        return False
-    ex = v["diag"].get("only_extra_gen_state")
-    if not ex or not all(n.startswith(RET_PREFIXES) for n in ex):
-        return False
-    return evaluate(rename_ret_names(inp), tol)["status"] == "ok"
+def _is_neg_const(e):
+    return isinstance(e, (int, float)) and not isinstance(e, bool) and e < 0
+
+
+def _is_cmp(e):
+    return isinstance(e, list) and e[0] == "cmp"
+
+
+def neutralise_d22(inp):
+    def rn(n):
+        for p in RET_PREFIXES:
+            if n.startswith(p):
+                return "tmp_" + p[1:-1] + "_" + n[len(p):]
+        return n
+    return map_program(inp, fname=rn)
+
+
+def neutralise_neg_power(inp):
+    return map_program(inp, fx=lambda e: ["**", _keep(e[1]), e[2]]
+                       if isinstance(e, list) and e[0] == "**" and _is_neg_const(e[1]) else e)
+
+
+def neutralise_d18(inp):
+    return map_program(inp, fx=lambda e: ["**", _keep(e[1]), e[2]]
+                       if isinstance(e, list) and e[0] == "**" and isinstance(e[1], list) and e[1][0] == "**"
+                       else e)
+
+
+def neutralise_nested_cmp(inp):
+    return map_program(inp, fx=lambda e: ["cmp", e[1]] + [_keep(x) if _is_cmp(x) else x for x in e[2:4]]
+                       if _is_cmp(e) and any(_is_cmp(x) for x in e[2:4]) else e)
+
+
+def neutralise_builtin_kwargs(inp):
+    """keyword arguments of built-ins rewritten to positional ones, by the registry's documented names"""
+    def fx(e):
+        if isinstance(e, list) and e[0] == "call" and e[1] in REF_BUILTINS and len(e) > 3 and e[3]:
+            names = REF_BUILTINS[e[1]][0]
+            args = list(e[2])
+            for n in names[len(args):]:
+                if n not in e[3]:
+                    return e
+                args.append(e[3][n])
+            if len(args) == len(names) and set(e[3]) <= set(names):
+                return ["call", e[1], args, {}]
+        return e
+    return map_program(inp, fx=fx)
+
+
+def neutralise_guarded_bounds(inp):
+    """loop bounds that name a temporary which the phase assigns exactly once, with a numeric literal,
+    are replaced by that literal (same meaning in program order; generated code then no longer reads
+    the temporary outside the guard under which it is assigned)"""
+    consts = {}
+    for ph in inp["phases"]:
+        count, val = {}, {}
+        for s, _ in walk_stmts(ph["body"]):
+            tg = [s[1]] if s[0] in ("assign", "assign_sub") else list(s[1]) if s[0] == "call" else []
+            for t in tg:
+                count[t] = count.get(t, 0) + 1
+            if s[0] == "assign" and not stmt_loops(s) and isinstance(s[2], (int, float)) \
+                    and not isinstance(s[2], bool):
+                val[s[1]] = s[2]
+        consts[ph["name"]] = {n: v for n, v in val.items() if count[n] == 1 and not is_persistent(n)}
+
+    def floops(ph, lps):
+        c = consts[ph["name"]]
+
+        def sub(e):
+            if isinstance(e, str):
+                return c.get(e, e)
+            if isinstance(e, list):
+                return [e[0]] + [sub(x) for x in e[1:]] if e[0] not in ("call", "cmp") else e
+            return e
+        return [[lp[0], sub(lp[1]), sub(lp[2])] for lp in lps]
+    return map_program(inp, floops=floops)
+
+
+def _has_expr(inp, pred):
+    for s, _ in all_stmts(inp):
+        for e in stmt_exprs(s):
+            for sub in walk_expr(e):
+                if pred(sub):
+                    return True
+    return False
 
 
 def _assigned_in(body):
@@ -1043,100 +1107,82 @@ def has_guarded_loop_bound(inp):
     return False
 
 
-def _fp_guarded_loop_bound(inp, tol):
-    """generated code evaluates the bounds of a looped assignment outside the statement's guard:
-    `if c: n <- 3; a <- array(n); a[i] <- .. [i=0..n]` with c false -> UnboundLocalError (only) in
-    generated code; interpreter and program order agree"""
-    if not has_guarded_loop_bound(inp):
-        return False
-    v = evaluate(inp, tol)
-    if v["status"] != "fail":
-        return False
+# name -> (applies(inp), neutraliser(inp) -> inp).  D21 is special (it changes the interpreter).
+NEUTRALISERS = [
+    ("D22", lambda i: any(n.startswith(RET_PREFIXES) for n in names_in(i)), neutralise_d22),
+    ("guarded_loop_bound", has_guarded_loop_bound, neutralise_guarded_bounds),
+    ("D18", lambda i: _has_expr(i, lambda e: isinstance(e, list) and e[0] == "**"
+                                and isinstance(e[1], list) and e[1][0] == "**"), neutralise_d18),
+    ("neg_power_base", lambda i: _has_expr(i, lambda e: isinstance(e, list) and e[0] == "**"
+                                           and _is_neg_const(e[1])), neutralise_neg_power),
+    ("nested_comparison", lambda i: _has_expr(i, lambda e: _is_cmp(e) and any(_is_cmp(x) for x in e[2:4])),
+     neutralise_nested_cmp),
+    ("builtin_kwargs", lambda i: _has_expr(i, lambda e: isinstance(e, list) and e[0] == "call"
+                                           and e[1] in REF_BUILTINS and len(e) > 3 and bool(e[3])),
+     neutralise_builtin_kwargs),
+]
+FINDING_DOC = {
+    "D21": "zero-trip loop: interpreter KeyError at `del self.context[ident]`",
+    "D22": "<ret_state>/<ret_time>/<ret_time_id> names persist in the generated class only",
+    "guarded_loop_bound": "generated code evaluates the bounds of a looped assignment outside its guard",
+    "D18": "Power(Power(a,b),c) printed a**b**c",
+    "neg_power_base": "Power(negative constant, e) printed -c**e",
+    "nested_comparison": "comparison of comparisons printed as a Python comparison chain",
+    "builtin_kwargs": "dot_product(x=, y=): builtins_python names its parameters a, b",
+}
+
+
+def _d21_symptom(v):
     d = v["diag"]
-    exc = d.get("gen_exc")
-    return bool(d.get("interp_eq_ref") and exc and exc[1] in ("UnboundLocalError", "NameError"))
-
-
-def _has_expr(inp, pred):
-    for s, _ in all_stmts(inp):
-        for e in stmt_exprs(s):
-            for sub in walk_expr(e):
-                if pred(sub):
-                    return True
-    return False
-
-
-def _is_neg_const(e):
-    return isinstance(e, (int, float)) and not isinstance(e, bool) and e < 0
-
-
-def _only_generated_deviates_in_values(inp, tol):
-    v = evaluate(inp, tol)
-    if v["status"] != "fail":
-        return False
-    d = v["diag"]
-    return bool(d.get("interp_eq_ref") and not d.get("gen_eq_ref") and not d.get("gen_exc")
-                and d.get("only_extra_gen_state") is None)
-
-
-def _fp_neg_power_base(inp, tol):
-    """Power(negative constant, e) is printed `-2**e` by the Python expression printer"""
-    return _has_expr(inp, lambda e: isinstance(e, list) and e[0] == "**" and _is_neg_const(e[1])) \
-        and _only_generated_deviates_in_values(inp, tol)
-
-
-def _fp_d18(inp, tol):
-    """D18: Power(Power(a,b),c) is printed a**b**c"""
-    return _has_expr(inp, lambda e: isinstance(e, list) and e[0] == "**"
-                     and isinstance(e[1], list) and e[1][0] == "**") \
-        and _only_generated_deviates_in_values(inp, tol)
-
-
-def _fp_nested_comparison(inp, tol):
-    """a comparison whose operand is a comparison is printed as a Python comparison chain"""
-    return _has_expr(inp, lambda e: isinstance(e, list) and e[0] == "cmp"
-                     and any(isinstance(x, list) and x[0] == "cmp" for x in e[2:4])) \
-        and _only_generated_deviates_in_values(inp, tol)
-
-
-def _fp_builtin_kwargs(inp, tol):
-    """a built-in called with keyword arguments: the interpreter binds by the Python parameter names
-    of dagrt.builtins_python, generated code by the registry's arg_names (they differ for dot_product)"""
-    if not _has_expr(inp, lambda e: isinstance(e, list) and e[0] == "call" and e[1].startswith("<builtin>")
-                     and len(e) > 3 and e[3]):
-        return False
-    v = evaluate(inp, tol)
-    if v["status"] != "fail":
-        return False
-    d = v["diag"]
-    excs = [x for x in (d.get("interp_exc"), d.get("gen_exc")) if x]
-    return any(x[1] == "TypeError" and ("keyword" in x[2] or "argument" in x[2]) for x in excs)
-
-
-_SINGLE = [("D21", _fp_d21), ("D22", _fp_d22), ("guarded_loop_bound", _fp_guarded_loop_bound),
-           ("D18", _fp_d18), ("neg_power_base", _fp_neg_power_base),
-           ("nested_comparison", _fp_nested_comparison), ("builtin_kwargs", _fp_builtin_kwargs)]
+    exc = d.get("interp_exc")
+    return bool(exc and exc[1] == "KeyError" and d.get("zero_trip")
+                and exc[2].strip("'\"") in d["zero_trip"])
 
 
 def explain(inp):
-    """names of the known findings that account for the failure of `inp`: [name] if one of them alone
-    does; ["D21", name] if the interpreter shows the D21 symptom and what remains once D21 is
-    neutralised is accounted for by `name`; None if something is left unexplained"""
-    if evaluate(inp)["status"] != "fail":
+    """names of the known findings that together account for the failure of `inp` (each one changes
+    the observed behaviour when it alone is neutralised on top of the previous ones, and after the
+    last one nothing fails); None if something is left unexplained"""
+    v = evaluate(inp)
+    if v["status"] != "fail":
         return None
-    for name, f in _SINGLE:
-        try:
-            if f(inp, False):
-                return [name]
-        except Exception:       # noqa: BLE001
-            continue
-    if _d21_symptom(inp):
-        for name, f in _SINGLE[1:]:
+    used, cur, tol = [], inp, False
+    if _d21_symptom(v):
+        vt = evaluate(cur, True)
+        if vt["status"] == "ok":
+            return ["D21"]
+        if vt["diag"].get("sig") != v["diag"].get("sig"):
+            used.append("D21")
+            tol, v = True, vt
+    for _round in range(3):         # one finding may hide another: repeat until nothing changes
+        progress = False
+        for name, applies, neutralise in NEUTRALISERS:
+            if name in used:
+                continue
             try:
-                if f(inp, True):
-                    return ["D21", name]
+                if not applies(cur):
+                    continue
+                nxt = neutralise(cur)
+                vn = evaluate(nxt, tol)
             except Exception:       # noqa: BLE001
                 continue
+            if vn["status"] == "skip":
+                continue
+            if vn["status"] == "ok":
+                return used + [name]
+            if vn["diag"].get("sig") != v["diag"].get("sig"):
+                used.append(name)
+                progress = True
+                cur, v = nxt, vn
+                if not tol and _d21_symptom(v):     # D21 may only show once another finding is out of the way
+                    vt = evaluate(cur, True)
+                    if vt["status"] == "ok":
+                        return used + ["D21"]
+                    if vt["diag"].get("sig") != v["diag"].get("sig"):
+                        used.append("D21")
+                        tol, v = True, vt
+        if not progress:
+            break
     return None
 
 
@@ -1144,13 +1190,13 @@ def _sole(name):
     return lambda inp: explain(inp) == [name]
 
 
-# FINGERPRINTS[name](inp) holds iff `inp` fails and the named finding ALONE accounts for the failure
-FINGERPRINTS = {name: _sole(name) for name, _ in _SINGLE}
+# FINGERPRINTS[name](inp) holds iff `inp` fails and neutralising the named finding ALONE removes the failure
+FINGERPRINTS = {name: _sole(name) for name in FINDING_DOC}
 
 
 def matching_fingerprint(inp):
     ex = explain(inp)
-    return "+".join(ex) if ex else None
+    return "+".join(sorted(ex)) if ex else None
 
 
 # ---- input generation ---------------------------------------------------------------------------------
@@ -1640,7 +1686,7 @@ def bounded(payload):
             return
         parts["failing_inputs"] += 1
         ex = explain(inp)
-        fp = "+".join(ex) if ex else None
+        fp = "+".join(sorted(ex)) if ex else None
         if fp:
             fp_counts[fp] = fp_counts.get(fp, 0) + 1
             if set(ex) <= active:
@@ -1667,8 +1713,10 @@ def bounded(payload):
         exhaustive_done = False
     samples.append(fam[3 * 45 + 7])
 
-    profiles = [dict(), dict(), dict(zero_trip=False, ret_names=False, guarded_bounds=False,
-                                     printer_stress=False, builtin_kwargs=False)]
+    off = dict(zero_trip=False, ret_names=False, guarded_bounds=False, printer_stress=False,
+               builtin_kwargs=False)
+    profiles = [dict(), off, dict(off, zero_trip=True), dict(off, zero_trip=True, guarded_bounds=True),
+                dict(off, zero_trip=True, printer_stress=True), dict(off, ret_names=True, builtin_kwargs=True)]
     for i in range(n_random):
         if time.time() - t0 > wall:
             break
@@ -1697,7 +1745,8 @@ def bounded(payload):
                     "incl. zero-trip loops and bounds held in variables, accumulation and doubly nested "
                     "loops, user function calls incl. multiple results and keyword arguments, yield_state, "
                     "fail_step, switch_phase, restart_step, raise_), random initial state, bound max_steps "
-                    "1-4 or t_end; every third program avoids all known-defect triggers.  Non-trivial = "
+                    "1-4 or t_end; six generator profiles rotate (all features / none of the constructs that known "
+                    "findings are about / some of them).  Non-trivial = "
                     "program-order execution runs >= 4 builder statements and produces a yielded value, a "
                     "failed step, a raise or >= 3 statement kinds; distinct = distinct JSON inputs."
                     % small_stride,
